@@ -530,6 +530,25 @@ def main():
                             problems.append((pv.id + " (opened with a projection)", k, repr(pv.attributes[k]), repr(gotv.get(k))))
             except Exception as e:  # noqa
                 problems.append(("<dataset opened with ?%s>" % pv.name, "cannot be opened", repr(e)[:200], ""))
+        # one long-lived application: a DAS is served, an attribute is edited in place, the DAS is served again - it describes the
+        # dataset as it is now (what a fresh application answers)
+        if kids_ and (i < 5 or rng.random() < 0.4):
+            from webob import Request as _Rq
+            stats["das_after_edit"] = stats.get("das_after_edit", 0) + 1
+            app0 = BaseHandler(ds)
+            tgt = kids_[0]
+            try:
+                _Rq.blank("/.das").get_response(app0).body
+                tgt.attributes["zz_edit"] = 7
+                now_ = _Rq.blank("/.das?" + tgt.name).get_response(app0).body
+                fresh_ = _Rq.blank("/.das").get_response(BaseHandler(ds)).body
+                if now_ != fresh_:
+                    problems.append(("<DAS of a long-lived application>", "after an attribute of %s was set" % tgt.id,
+                                     now_.decode("latin-1")[:300], fresh_.decode("latin-1")[:300]))
+            except Exception as e:  # noqa
+                problems.append(("<DAS of a long-lived application>", "raised", repr(e)[:200], ""))
+            finally:
+                tgt.attributes.pop("zz_edit", None)
         if problems:
             direct.append({"law": "attributes served as a DAS are found by the client on the same variables with the same names, nesting, "
                                   "value types and values (six significant digits; NaN / infinities preserved)",
